@@ -39,6 +39,12 @@ fn uniform_auth(u: &[Felt], height: usize, idx: &[u64]) -> Vec<Felt> {
 fn to_u64(f: &Felt) -> u64 { f.to_biguint().try_into().unwrap() }
 
 pub fn forge_zero(splice: bool, n_queries: u64, pow_bits: u8) -> Result<StarkProof, String> {
+    forge_zero_knobs(splice, n_queries, pow_bits, None, None, None)
+}
+/// the same forger with SHAPE knobs: how many FRI inner-layer commitments are sent, how many last-layer coefficients, how many layer
+/// witnesses — everything else (transcript replay, proof of work, decommitments) stays consistent with what IS sent, so that a malformed
+/// shape is carried as deep into the pipeline as the verifier lets it (a mutated honest proof dies at the proof of work instead)
+pub fn forge_zero_knobs(splice: bool, n_queries: u64, pow_bits: u8, inner_sent: Option<usize>, last_len_k: Option<usize>, layers_sent: Option<usize>) -> Result<StarkProof, String> {
     let mut pi = swiftness_air::fixtures::public_input::get();
     let n = pi.main_page.0.len();
     pi.main_page.0[n - 1].value = Felt::from(0xdeadbeefu64); // FALSE statement: a different program output
@@ -52,14 +58,14 @@ pub fn forge_zero(splice: bool, n_queries: u64, pow_bits: u8) -> Result<StarkPro
     let steps: Vec<usize> = cfg.fri.fri_step_sizes.iter().map(|s| to_u64(s) as usize).collect();
     let mut fri_u = vec![]; let mut hh = h;
     for i in 1..steps.len() { hh -= steps[i]; fri_u.push((uniform_nodes(1 << steps[i], hh), hh, steps[i])); }
-    let last_len = 1usize << to_u64(&cfg.fri.log_last_layer_degree_bound);
+    let last_len = last_len_k.unwrap_or(1usize << to_u64(&cfg.fri.log_last_layer_degree_bound));
     let build = |tail: [Felt; 2], nonce: u64| -> StarkUnsentCommitment {
         let mut oods = vec![Felt::ZERO; if splice { m + 2 } else { m }];
         oods.extend(tail);
         StarkUnsentCommitment {
             traces: swiftness_air::trace::UnsentCommitment { original: u1[0], interaction: u2[0] },
             composition: u3[0], oods_values: oods,
-            fri: FriUnsent { inner_layers: fri_u.iter().map(|x| x.0[0]).collect(), last_layer_coefficients: vec![Felt::ZERO; last_len] },
+            fri: FriUnsent { inner_layers: fri_u.iter().take(inner_sent.unwrap_or(usize::MAX)).map(|x| x.0[0]).collect(), last_layer_coefficients: vec![Felt::ZERO; last_len] },
             proof_of_work: PowUnsent { nonce },
         }
     };
@@ -96,6 +102,7 @@ pub fn forge_zero(splice: bool, n_queries: u64, pow_bits: u8) -> Result<StarkPro
         layers.push(LayerWitness { leaves: vec![Felt::ZERO; n_leaves], table_witness: tw(u, *hgt, &cosets) });
         cur = cosets;
     }
+    layers.truncate(layers_sent.unwrap_or(usize::MAX));
     Ok(StarkProof {
         config: cfg, public_input: pi, unsent_commitment: build([c, Felt::ZERO], nonce),
         witness: StarkWitness {
@@ -428,6 +435,11 @@ pub fn run(op: &str, a: &[&str]) -> Option<Out> {
     Some(match op {
         "forge_zero" => match forge_zero(a[0] == "1", u64h(a[1]), u64h(a[2]) as u8) {
             Ok(p) => Out::Ok(crate::ops_proof::fmt_proof(&p)), Err(e) => Out::Err(e) },
+        // forge_zero_knobs <splice> <nq> <pow> <inner_sent|-> <last_len|-> <layers_sent|->
+        "forge_zero_knobs" => {
+            let k = |x: &str| if x == "-" { None } else { Some(u64h(x) as usize) };
+            match forge_zero_knobs(a[0] == "1", u64h(a[1]), u64h(a[2]) as u8, k(a[3]), k(a[4]), k(a[5])) {
+                Ok(p) => Out::Ok(crate::ops_proof::fmt_proof(&p)), Err(e) => Out::Err(e) } }
         "forge_zero_solve" => match forge_zero_solve(u64h(a[0]) as usize, u64h(a[1]) as usize, u64h(a[2]), u64h(a[3]) as u8) {
             Ok(p) => Out::Ok(crate::ops_proof::fmt_proof(&p)), Err(e) => Out::Err(e) },
         "forge_zero_from" => {
